@@ -150,7 +150,7 @@ def install(I):
             I_.raise_builtin('ValueError', 'empty range for randrange()')
         r = I_.fresh('int', 'random')
         I_.assume(z3.And(r.t >= lt, r.t < ht))
-        I_.ghost.setdefault('random_draws', []).append((r, lo, hi))
+        I_.ghost.setdefault('random_draws', PyList()).items.append((r, lo, hi))
         return r
     module('random', randrange=Builtin('randrange', randrange), seed=Builtin('seed', lambda I_, a, k: None),
            randint=Builtin('randint', lambda I_, a, k: randrange(I_, [a[0], I_.binop('Add', a[1], 1)], k)))
